@@ -14,6 +14,7 @@ out.json: one observation per case (nothing is judged here):
    "stage": "parse" | "parser-fold" | "macro-resolve" | "label-resolve" | "write" | "api" (outermost pipeline function on the stack),
    "has_pos": message carries an input file name and a line number, "idents": source identifiers found in the message,
    "out_exists": bool, "out_size": int, "reader": "accepts" | "<exception class>" | null, "secs": float}
+The child reports in two lines: what assemble() did (the watchdog period ends there), then what the Reader says.
 The default int->str digit limit of the interpreter is left untouched on purpose (it is part of the behaviour)."""
 import contextlib
 import json
@@ -115,15 +116,17 @@ def child(case, cdir, wfd):
     sys.setrecursionlimit(5000)
     obs['out_exists'] = out.exists()
     obs['out_size'] = out.stat().st_size if out.exists() else 0
-    obs['reader'] = None
+    # first line: what assemble() did (the watchdog stops here); second line: what the Reader says about the output path
+    os.write(wfd, (json.dumps(obs) + '\n').encode())
+    reader = None
     if out.exists():
         try:
             with open(os.devnull, 'w') as dn, contextlib.redirect_stdout(dn):
                 Reader(out)
-            obs['reader'] = 'accepts'
+            reader = 'accepts'
         except BaseException as e:  # noqa
-            obs['reader'] = exc_name(e)
-    os.write(wfd, json.dumps(obs).encode())
+            reader = exc_name(e)
+    os.write(wfd, (json.dumps({'reader': reader}) + '\n').encode())
     os.close(wfd)
 
 
@@ -149,7 +152,8 @@ def run_case(case, base, default_timeout):
     buf = b''
     hang = False
     while True:
-        left = limit - (time.time() - t0)
+        # the watchdog covers assemble() (until the first line arrives); the Reader check afterwards gets its own allowance
+        left = (limit if b'\n' not in buf else limit + 60.0) - (time.time() - t0)
         if left <= 0:
             hang = True
             break
@@ -166,14 +170,22 @@ def run_case(case, base, default_timeout):
         os.kill(pid, signal.SIGKILL)
     _, status = os.waitpid(pid, 0)
     out = cdir / 'out.fjm'
-    if hang:
+    lines = buf.split(b'\n')
+    if len(lines) >= 2 and lines[0]:
+        obs = json.loads(lines[0].decode())
+        obs['reader'] = json.loads(lines[1].decode())['reader'] if len(lines) >= 3 and lines[1] else None
+        if obs['reader'] is None and obs['out_exists']:
+            try:
+                Reader(out)
+                obs['reader'] = 'accepts'
+            except BaseException as e:  # noqa
+                obs['reader'] = exc_name(e)
+    elif hang:
         obs = {'result': 'hang', 'secs': round(time.time() - t0, 2), 'out_exists': out.exists(),
                'out_size': out.stat().st_size if out.exists() else 0, 'reader': None}
-    elif not buf:
+    else:
         obs = {'result': 'crash', 'status': status, 'secs': round(time.time() - t0, 2), 'out_exists': out.exists(),
                'out_size': out.stat().st_size if out.exists() else 0, 'reader': None}
-    else:
-        obs = json.loads(buf.decode())
     if obs.get('reader') is None and obs['out_exists'] and obs['result'] in ('hang', 'crash'):
         try:
             Reader(out)
